@@ -13,6 +13,10 @@ Decides, partly by interpreting small pure functions with the checker's evaluato
    statements that only carry an exception assertion, as the kill map does.
  * __remove_non_holding_assertions removes exactly the assertions the verification run flagged as
    failed or as raising, whatever the combination on one statement.
+ * a mutant that was not executed (invalid module, budget) yields the skip token None on every path that does not
+   run the tests, and the consumer counts / collects a column only under `is not None` (C21.unchecked);
+ * ObjectAssertion equality, interpreted, conflates 1 and True, so no state of the verification observer may be
+   keyed by an assertion object (C21.own-rendering).
 Whether the verification run itself observes every violation (flakiness of the SUT) is not decided.
 """
 
